@@ -97,7 +97,7 @@ func worker(prop, scID, out string) {
 	}
 	r := lib.NewReport(prop)
 	cfg := sim.Config{Sc: sc, Actions: append([]string{"release", "approve"}, plan.Actions...), MaxUser: plan.MaxUser, Disturbances: plan.Disturbances,
-		MaxDisturb: plan.MaxDisturb, StateCap: plan.StateCap, Monitors: plan.Monitors(w, sc), InjectOncePerControlState: true, Verbose: os.Getenv("VERIF_VERBOSE") != ""}
+		MaxDisturb: plan.MaxDisturb, StateCap: plan.StateCap, Monitors: append([]sim.Monitor{sim.ContextTracker{}}, plan.Monitors(w, sc)...), InjectOncePerControlState: true, Verbose: os.Getenv("VERIF_VERBOSE") != ""}
 	budgetS := 150.0
 	if thorough {
 		budgetS = 3000
@@ -282,7 +282,7 @@ func replay(prop, file string) {
 		os.Exit(2)
 	}
 	r := lib.NewReport(prop)
-	cfg := sim.Config{Sc: sc, Monitors: plan.Monitors(w, sc)}
+	cfg := sim.Config{Sc: sc, Monitors: append([]sim.Monitor{sim.ContextTracker{}}, plan.Monitors(w, sc)...)}
 	ex := sim.NewExplorer(w, cfg, r)
 	fmt.Printf("replaying %d transitions of scenario %s on the real controllers\n", len(f.Replay.Trace), sc.ID)
 	ex.Replay(f.Replay.Trace, true)
